@@ -145,6 +145,33 @@ class Program:
         from . import inline
 
         self.inline_log: List[str] = inline.apply(self) if not os.environ.get("MDSA_NO_INLINE") else []
+        self.signatures = self._signatures()
+        self.activate()
+
+    def activate(self):
+        """make this program's tables the ones the pattern matcher consults"""
+        from . import match
+
+        match.SIGNATURES = self.signatures
+
+    def _signatures(self) -> Dict[str, List[str]]:
+        sigs: Dict[str, Optional[List[str]]] = {}
+        for fi in self.functions.values():
+            if isinstance(fi.node, ast.Lambda):
+                continue
+            a = fi.node.args
+            ps = [x.arg for x in a.posonlyargs + a.args]
+            decos = {d.id for d in fi.node.decorator_list if isinstance(d, ast.Name)}
+            if fi.cls is not None and fi.parent is None and "staticmethod" not in decos and ps:
+                ps = ps[1:]
+            if a.vararg is not None:
+                ps = None
+            nm = fi.name
+            if nm in sigs and sigs[nm] != ps:
+                sigs[nm] = None
+            elif nm not in sigs:
+                sigs[nm] = ps
+        return {k: v for k, v in sigs.items() if v}
 
     def _index_module(self, m: Module):
         def index_func(node, prefix, cls, parent):
